@@ -113,7 +113,7 @@ class MoreInfoFromHeaderMixin:
 
         try:
             date = parsedate_to_datetime(value)
-        except (TypeError, ValueError):
+        except (TypeError, ValueError, OverflowError):
             return None
 
         if date.tzinfo is None:
